@@ -135,6 +135,18 @@ func checkVerifier(t *testing.T, f stats.Failer, rec *stats.Recorder, c Case) {
 	var outcome *notation.VerificationOutcome
 	var skipped bool
 	var level *trustpolicy.VerificationLevel
+	for _, e := range c.Earlier { // not judged
+		switch c.Via {
+		case "verify":
+			v.Verify(ctx, fixture.desc, fixture.env[c.Format], notation.VerifierVerifyOptions{ArtifactReference: e, SignatureMediaType: c.Format})
+		case "skipverify":
+			v.SkipVerify(ctx, notation.VerifierVerifyOptions{ArtifactReference: e, SignatureMediaType: c.Format})
+			v.Verify(ctx, fixture.desc, fixture.env[c.Format], notation.VerifierVerifyOptions{ArtifactReference: e, SignatureMediaType: c.Format})
+		case "verifyblob":
+			v.VerifyBlob(ctx, func(alg digest.Algorithm) (ocispec.Descriptor, error) { return fixture.desc, nil }, fixture.env[c.Format], notation.BlobVerifierVerifyOptions{SignatureMediaType: c.Format, TrustPolicyName: e})
+		}
+	}
+	ts.Calls = nil
 	switch c.Via {
 	case "verify":
 		outcome, err = v.Verify(ctx, fixture.desc, fixture.env[c.Format], notation.VerifierVerifyOptions{ArtifactReference: c.Ref, SignatureMediaType: c.Format})
@@ -275,6 +287,10 @@ func TestC08_Verifier(t *testing.T) {
 			distinctBodies(rt, stmts)
 			name, kind, lenient := genBlobName(rt, stmts)
 			c.Kind, c.Stmts, c.Ref, c.RefKind, c.Lenient = "blob", stmts, name, kind, lenient
+			for i, n := 0, rp.Pick(rt, "earlier", 0, 0, 1, 2); i < n; i++ {
+				e, _, _ := genBlobName(rt, stmts)
+				c.Earlier = append(c.Earlier, e)
+			}
 			mustValidBlob(t, buildBlob(stmts, nil), stmts)
 			rel = relation(name, allNames(stmts))
 			if name == "" {
@@ -286,6 +302,9 @@ func TestC08_Verifier(t *testing.T) {
 			distinctBodies(rt, d.Stmts)
 			ref := genRef(rt, d)
 			c.Kind, c.Stmts, c.Ref, c.RefKind, c.Lenient = "oci", d.Stmts, ref.Text, ref.Kind, ref.Lenient
+			for i, n := 0, rp.Pick(rt, "earlier", 0, 0, 1, 2); i < n; i++ {
+				c.Earlier = append(c.Earlier, genRef(rt, d).Text)
+			}
 			mustValidOCI(t, buildOCI(d.Stmts, nil), d.Stmts)
 			rel = relation(probe(ref.Text), allScopes(d.Stmts))
 			_, how = modelOCI(d.Stmts, ref.Text)
@@ -298,7 +317,10 @@ func TestC08_Verifier(t *testing.T) {
 		if c.Lenient {
 			cl = append(cl, "verifier:silent-case")
 		}
-		rec.Case(cl, len(c.Stmts) >= 2 && rel != "none", stats.Fingerprint("verifier", via, c.Format, docSig(c.Stmts), c.Ref, fmt.Sprint(c.Perm)), func() any { return c })
+		if len(c.Earlier) > 0 {
+			cl = append(cl, "verifier:reused-for-other-references")
+		}
+		rec.Case(cl, len(c.Stmts) >= 2 && rel != "none", stats.Fingerprint("verifier", via, c.Format, docSig(c.Stmts), c.Ref, fmt.Sprint(c.Perm), fmt.Sprint(c.Earlier)), func() any { return c })
 		checkVerifier(t, rt, rec, c)
 	})
 }
